@@ -328,5 +328,62 @@ class AfterOtherJobs(Part):
         return res
 
 
+class PerFamilyBits(Part):
+    name = "dump_with_per_family_host_bits"
+    desc = "anonymize_files(dumpfile=...) with every (IPv4 bits, IPv6 bits) pair of a menu incl. None: each family's pairs agree with the mapping function for ITS host-bit count"
+
+    def __init__(self, tier, seed):
+        self.tier, self.seed = tier, seed
+
+    def cases(self):
+        vals = [None, 0, 8, 17]
+        return [{"b4": a, "b6": b, "salt": s} for a in vals for b in vals + [64, 128] for s in ("saltForTest", "seed%d" % self.seed)]
+
+    def run(self, cfg):
+        from netconan.anonymize_files import anonymize_files
+
+        res = Res()
+        root = seams.scratch_dir("c17b")
+        try:
+            text = ("peer 11.22.33.44\npeer 10.1.2.3\npeer 2001:db8::1\npeer fe80::a:b\npeer ::ffff:11.22.33.44\npeer 200.7.6.5\n"
+                    "peer 2001:db8:0:12::1\n")
+            seams.write_tree(os.path.join(root, "in"), {"a.cfg": text})
+            kw = {}
+            if cfg["b4"] is not None:
+                kw["preserve_suffix_v4"] = cfg["b4"]
+            if cfg["b6"] is not None:
+                kw["preserve_suffix_v6"] = cfg["b6"]
+            with seams.capture_logs():
+                anonymize_files(os.path.join(root, "in"), os.path.join(root, "out"), anon_pwd=False, anon_ip=True, salt=cfg["salt"],
+                                dumpfile=os.path.join(root, "map.txt"), **kw)
+            fresh4 = ipdom.make_v4(["md5", cfg["salt"]], cfg["b4"] or 0, None, None)
+            fresh6 = ipdom.make_v6(["md5", cfg["salt"]], cfg["b6"] or 0)
+            lines = open(os.path.join(root, "map.txt")).read().splitlines()
+            seen = set()
+            for ln in lines:
+                res.evals += 1
+                a, b = [ipaddress.ip_address(x) for x in ln.split("\t")]
+                seen.add(a)
+                f = fresh4 if a.version == 4 else fresh6
+                if f.anonymize(int(a)) != int(b):
+                    res.violation("dump-pair-disagrees-with-mapping|per-family-bits|%d" % a.version,
+                                  "anonymize_files(v4 bits %r, v6 bits %r): map has %s -> %s, the mapping function for these counts gives %s" % (
+                                      cfg["b4"], cfg["b6"], a, b, type(a)(f.anonymize(int(a)))), cfg)
+                    break
+            out = (seams.read_tree(os.path.join(root, "out")).get("a.cfg") or b"").decode().splitlines()
+            for s_, g_ in zip(text.splitlines(), out):
+                a = ipaddress.ip_address(s_.split()[1])
+                if g_ != s_ and a not in seen:
+                    res.violation("dump-misses-or-contradicts-replaced-address|per-family-bits|%d" % a.version,
+                                  "anonymize_files(v4 bits %r, v6 bits %r): %s was replaced but has no line" % (cfg["b4"], cfg["b6"], a), cfg)
+                    break
+            res.nt((cfg["b4"], cfg["b6"], cfg["salt"]))
+            res.out(tuple(lines[:3]))
+            res.samples.append({"cfg": cfg, "map_lines": len(lines)})
+        finally:
+            shutil.rmtree(root, ignore_errors=True)
+        return res
+
+
 def parts(tier, seed):
-    return [GraphPart(tier, seed), FilePart(tier, seed), LongRun(tier, seed), AfterOtherJobs(tier, seed)]
+    return [GraphPart(tier, seed), FilePart(tier, seed), LongRun(tier, seed), AfterOtherJobs(tier, seed), PerFamilyBits(tier, seed)]
